@@ -60,6 +60,10 @@ CHECKS = {
          "C14_no_hook_twice / C14_up_exactly_once / C14_order / C14_up_fails / C14_before_and_after_once_each / C14_down_once_for_used_contexts / C14_second_finish_runs_nothing for all run/context assignments and schedules. Tied to the code by 1..8 runs over 1..3 contexts, all task shapes, failing up/before, through taskrun engine and CLI.",
          "Trusted: Coq kernel; LTS transcription of Run/contextForTask/Finish and ExecutionContext hooks; sync.Once as 'first arriver runs, others wait'; Go engine taskrun, python driver + binary. No axioms.",
          "DESIGN.md section 6 C14", "taskrun+cli"),
+ "C17": ("Coq proof: termination of the import traversal for every import structure (fuel above the number of existing paths is never exhausted), each file read once, a successful load reads exactly the reachability closure and merges each file's definitions once (in merge order), relative resolution against the importer, a broken file anywhere in the closure yields an error (no panic, no success), global+project lookup laws; the real binary on generated directory trees compared with the model and with an independent closure monitor in Coq",
+         "C17_terminates / C17_each_read_once / C17_closure_and_definitions / C17_relative_to_importer / C17_broken_import_is_an_error / C17_global_alongside_project for all file systems and import graphs. Tied to the code EXHAUSTIVELY on every import graph over <=3 files in nested directories (self-loops, cycles), sampled with reversed lists and redundant relative paths, random graphs to 7 files with directory and repeated imports, one file missing/unparsable at every position, mis-shapen import fields, all 64 global/project splits.",
+         "Trusted: Coq kernel; transcription of Loader.load/loadDir (imports set, path.Join/Clean on segment lists); mergo on non-conflicting maps = concatenation; yaml.v2, filepath.Glob order, os.Stat; URL imports not modelled; python driver + binary. No axioms.",
+         "DESIGN.md section 6 C17", "cli"),
  "C19": ("Coq proof (partial): chunking-invariance of the prefixed writer (for every stream and every splitting into Write calls that does not cut an escape sequence, for every line-local stripper), whole-line shape of every sink write, projection theorem for arbitrary interleavings of concurrent writers, raw identity, cockpit call-sequence safety; sink writes of the real decorators (exhaustive small streams x all splits, long random streams, 1..8 concurrent writers) compared with the model and monitored in Coq; bufio.ScanLines and Go's regexp validated against the model's scanner/matcher; every task outcome under the three formats in child processes",
          "PARTIAL: C19_prefixed_faithful / C19_prefixed_whole_lines / C19_interleaving / C19_raw_identity / C19_cockpit_no_crash are proved for all streams, chunkings and interleavings; the full statement is refuted for chunkings that cut an ANSI sequence (C19_refuted_ansi_straddle = known finding K1). Atomicity of a sink Write, spinner timing/lock order and format-independence of results are observed only.",
          "Trusted: Coq kernel; transcription of prefixed.go/raw.go/cockpit.go call structure; Model/Regex.v used for predictions and the K1 class only (validated against Go regexp each run); Go engines output/taskrun-child, python driver. No axioms.",
